@@ -12,9 +12,27 @@ use rayon::prelude::*;
 use serde_json::{json, Value};
 use std::sync::atomic::{AtomicU64, Ordering};
 
+thread_local! {
+    /// indices of operations of the current execution that the crate refused (documented refusals offered on purpose)
+    pub static REFUSED: std::cell::RefCell<Vec<usize>> = std::cell::RefCell::new(Vec::new());
+}
+/// called by a table driver when a refusable operation panicked and was skipped
+pub fn note_refused(i: usize) {
+    REFUSED.with(|r| r.borrow_mut().push(i));
+}
+fn refused_now() -> Vec<usize> {
+    REFUSED.with(|r| r.borrow().clone())
+}
+fn refused_reset() {
+    REFUSED.with(|r| r.borrow_mut().clear());
+}
+
 pub struct Visit<'a> {
     pub table: &'a dyn Table,
     pub ctor: &'a Ctor,
+    /// the history as issued
+    pub all_ops: &'a [Op],
+    /// the history the table accepted (refused operations removed): what the reference model is fed
     pub ops: &'a [Op],
     pub live: &'a dyn Aml,
     pub handles: &'a [u32],
@@ -85,13 +103,20 @@ fn leaves(t: &dyn Table, c: &Ctor, level: u8, depth: usize, h: &mut Vec<Op>, idx
 
 fn run_leaf(ctx: &Ctx, t: &dyn Table, c: &Ctor, ops: &[Op], idx: &[usize], judge: &(dyn Fn(&Visit) + Sync), nodes: &AtomicU64) {
     let mut reached = 0usize;
+    refused_reset();
     let r = catch(|| {
         t.run(c, ops, &mut |k, live, hs| {
             reached = k;
             // judge prefix k iff this leaf is the first leaf below that node
             if idx[k..].iter().all(|i| *i == 0) {
                 nodes.fetch_add(1, Ordering::Relaxed);
-                judge(&Visit { table: t, ctor: c, ops: &ops[..k], live, handles: hs, sparse: false, lane: None });
+                let rf = refused_now();
+                if rf.is_empty() {
+                    judge(&Visit { table: t, ctor: c, all_ops: &ops[..k], ops: &ops[..k], live, handles: hs, sparse: false, lane: None });
+                } else {
+                    let eff: Vec<Op> = ops[..k].iter().enumerate().filter(|(i, _)| !rf.contains(i)).map(|(_, o)| *o).collect();
+                    judge(&Visit { table: t, ctor: c, all_ops: &ops[..k], ops: &eff, live, handles: hs, sparse: false, lane: None });
+                }
             }
         })
     });
@@ -198,13 +223,20 @@ pub fn run_lane(ctx: &Ctx, t: &dyn Table, c: &Ctor, lane: &Lane, want: &(dyn Fn(
     let mut judged = 0u64;
     let mut reached = 0usize;
     let ops = &lane.ops;
+    refused_reset();
     let r = catch(|| {
         t.run(c, ops, &mut |k, live, hs| {
             reached = k;
             let (go, sparse) = want(k);
             if go {
                 judged += 1;
-                judge(&Visit { table: t, ctor: c, ops: &ops[..k], live, handles: hs, sparse, lane: Some(&lane.name) });
+                let rf = refused_now();
+                if rf.is_empty() {
+                    judge(&Visit { table: t, ctor: c, all_ops: &ops[..k], ops: &ops[..k], live, handles: hs, sparse, lane: Some(&lane.name) });
+                } else {
+                    let eff: Vec<Op> = ops[..k].iter().enumerate().filter(|(i, _)| !rf.contains(i)).map(|(_, o)| *o).collect();
+                    judge(&Visit { table: t, ctor: c, all_ops: &ops[..k], ops: &eff, live, handles: hs, sparse, lane: Some(&lane.name) });
+                }
             }
         })
     });
